@@ -29,8 +29,12 @@ TRUSTED_BASE = [
 # property table: proof modules, tie streams (harness stream names), notes
 # ---------------------------------------------------------------------------------------------------
 PROPS = {
+    'C01': dict(streams=['write', 'dict']),
+    'C02': dict(streams=['ticks', 'midix', 'write']),
     'C03': dict(streams=['scale', 'conv']),
     'C06': dict(streams=['midix', 'write']),
+    'C07': dict(streams=['ticks', 'write']),
+    'C08': dict(streams=['midix', 'write']),
     'C13': dict(streams=['scale', 'diatonic']),
     'C14': dict(streams=['chain']),
     'C15': dict(streams=['note', 'describe']),
